@@ -7,6 +7,7 @@
 #include <rapidcheck.h>
 
 #include <cerrno>
+#include <malloc.h>
 #include <new>
 
 #if defined(__SANITIZE_ADDRESS__)
@@ -248,6 +249,13 @@ static std::string run_history(Context& cx, const std::vector<Cmd>& h, bool* non
                 in.dealloc(p, (size_t)c.n);
                 break;
             }
+            if (malloc_usable_size(p) < (size_t)c.n * in.esz)
+            {
+                // what the C library actually reserved for this block (glibc; under AddressSanitizer: the requested size)
+                fail = "the block holds " + std::to_string(malloc_usable_size(p)) + " bytes, fewer than n*sizeof(T) = " + std::to_string((size_t)c.n * in.esz);
+                in.dealloc(p, (size_t)c.n);
+                break;
+            }
             Block b { p, (size_t)c.n, in.esz, in.align, c.inst, c.fill };
             // all n*sizeof(T) bytes must be writable (ASan variant: a short block is a heap-buffer-overflow here)
             fill_block(p, b.n * b.esz, b.fill);
@@ -367,6 +375,32 @@ static bool overflow_rows(Context& cx)
         // of the byte count wraps around
         for (size_t k : { (size_t)0, (size_t)1, (size_t)2, (size_t)7, in.align - 1, in.align, in.align + 1, 2 * in.align + 3, (size_t)4096 })
             ns.push_back((SIZE_MAX - k) / in.esz);
+#if !XSV_HAVE_LSAN
+        // byte counts just above 2^32 (a count kept in a 32-bit variable wraps): address space only, two pages are touched
+        if (i % 10 == 3 || i % 10 == 9)
+            for (size_t bytes : { ((size_t)1 << 32) + 4096, ((size_t)1 << 32) + 64 * in.esz, ((size_t)1 << 33) + 48 * in.esz })
+            {
+                const size_t n = bytes / in.esz;
+                cx.st.evaluations++;
+                cx.st.executions++;
+                cx.st.cls("rows_above_4GiB");
+                bool threw = false;
+                unsigned char* p = (unsigned char*)in.alloc(n, &threw);
+                if (!p)
+                    continue; // allowed when it threw; a null without throwing is reported by the other rows
+                if (malloc_usable_size(p) < n * in.esz)
+                {
+                    cx.add_violation(mkviol("allocate_large", std::string("allocate(") + std::to_string(n) + ") of " + in.tname + " (Align " + std::to_string(in.align) + "): the block holds " + std::to_string(malloc_usable_size(p)) + " bytes, fewer than n*sizeof(T) = " + std::to_string(n * in.esz), std::to_string(i) + ":" + std::to_string(n), ""));
+                    ok = false;
+                }
+                else
+                {
+                    p[0] = 1;
+                    p[n * in.esz - 1] = 2; // the last byte the caller was promised
+                }
+                in.dealloc(p, n);
+            }
+#endif
         for (size_t n : ns)
         {
             cx.st.evaluations++;
@@ -485,6 +519,48 @@ static bool eq_row(Context& cx)
     return ok;
 }
 
+// default_allocator<T, A> (= aligned_allocator<T, A::alignment()>) for every architecture of the build's supported list:
+// its blocks must be usable by load_aligned / store_aligned of A, i.e. aligned to the size of A's register.  The pointer is
+// inspected first; the aligned access is only executed when the pointer is legal (a fault would hide the cause).
+template <class A>
+static bool arch_allocator_row(Context& cx)
+{
+    bool ok = true;
+    using B = xsimd::batch<float, A>;
+    xsimd::default_allocator<float, A> al;
+    void* keep[24] = {};
+    size_t keepn[24] = {};
+    for (int k = 0; k < 24 && ok; ++k)
+    {
+        const size_t n = B::size * (size_t)(1 + k % 3) + (size_t)(k % 5);
+        float* p = al.allocate(n);
+        keep[k] = p;
+        keepn[k] = n;
+        cx.st.evaluations++;
+        if (A::requires_alignment() && ((uintptr_t)p % sizeof(B)) != 0)
+        {
+            cx.add_violation(mkviol("default_allocator", std::string("default_allocator<float, ") + A::name() + "> (alignment " + std::to_string(A::alignment()) + ") returned " + std::to_string((uintptr_t)p % sizeof(B)) + " mod " + std::to_string(sizeof(B)) + ": load_aligned/store_aligned of this architecture need a multiple of the register size", A::name(), ""));
+            ok = false;
+            continue;
+        }
+        for (size_t i = 0; i < B::size; ++i)
+            p[i] = (float)i;
+        B b = B::load_aligned(p);
+        b.store_aligned(p);
+    }
+    for (int k = 0; k < 24; ++k)
+        if (keep[k])
+            al.deallocate((float*)keep[k], keepn[k]);
+    return ok;
+}
+template <class... A>
+static bool arch_allocator_all(Context& cx, xsimd::arch_list<A...>)
+{
+    bool ok = true;
+    (void)std::initializer_list<int> { (ok = arch_allocator_row<A>(cx) && ok, 0)... };
+    return ok;
+}
+
 static bool default_alignment_row(Context& cx)
 {
     // the default allocator alignment satisfies load_aligned/store_aligned of the default architecture
@@ -537,6 +613,7 @@ int main(int argc, char** argv)
             ok = is_aligned_all(cx, xsimd::all_x86_architectures {}) && ok;
             ok = is_aligned_all(cx, xsimd::arch_list<xsimd::emulated<128>, xsimd::emulated<256>, xsimd::emulated<512>> {}) && ok; // no alignment requirement, but alignment() == 8
             ok = default_alignment_row(cx) && ok;
+            ok = arch_allocator_all(cx, xsimd::supported_architectures {}) && ok;
         }
         printf(ok ? "REPLAY-PASS\n" : "REPLAY-FAIL %s\n", ok ? "" : cx.violations[0].to_json().c_str());
         return ok ? 0 : 1;
@@ -556,6 +633,7 @@ int main(int argc, char** argv)
         is_aligned_all(cx, xsimd::all_x86_architectures {});
         is_aligned_all(cx, xsimd::arch_list<xsimd::emulated<128>, xsimd::emulated<256>, xsimd::emulated<512>> {});
         default_alignment_row(cx);
+        arch_allocator_all(cx, xsimd::supported_architectures {});
         eq_row<char, 16, double, 16>(cx);
         eq_row<char, 16, char, 32>(cx);
         eq_row<float, 64, int, 64>(cx);
